@@ -225,6 +225,7 @@ func (e *m4Env) runBatchScenario(run *vlib.Run, caseIdx int, sc batchScenario) {
 	sock := &chanSocket{in: make(chan string, 16)}
 	var closeOnce sync.Once
 	closeSock := func() { closeOnce.Do(func() { close(sock.in) }) }
+	sock.end.cancel = cancel
 	conn := graphql.CreateConnection(ctx, sock, be.schema, graphql.WithMinRerunInterval(time.Millisecond))
 	var served int32
 	go func() {
@@ -280,6 +281,10 @@ func (e *m4Env) runBatchScenario(run *vlib.Run, caseIdx int, sc batchScenario) {
 	closeSock()
 	if ok {
 		ok = wait("ServeJSONSocket returns after the socket closed", func() bool { return atomic.LoadInt32(&served) == 1 })
+	}
+	if n := sock.end.excessReads(); n > 0 {
+		run.Violation(caseIdx, "", wit(fmt.Sprintf("the read loop kept reading after a permanent non-close read error (%d reads)", n)))
+		return
 	}
 	if ok {
 		run.Count("m4:cancellation_point_reached", 1)
